@@ -707,6 +707,14 @@ func (m *collection) appendChildLLSnapshot(dst *segmentStack,
 		var childSnap Snapshot
 		if src != nil {
 			childSnap, _ = src.ChildCollectionSnapshot(cName)
+			if childFooter, ok := childSnap.(*Footer); ok &&
+				childFooter.incarNum != childCollection.incarNum {
+				// The lower level still holds a prior incarnation of a
+				// child collection that was deleted and recreated; the
+				// new incarnation must not see the old entries.
+				childSnap.Close()
+				childSnap = nil
+			}
 		}
 
 		dst.childSegStacks[cName] =
